@@ -56,6 +56,8 @@ PROPS = {
             "parts": [{"engine": "hdr", "test": "TestVF_C14_Header", "quick": (4, 2500), "thorough": (16, 50000)}]},
     "C15": {"level": "exploration", "assumptions": BASE_ASSUME + ["background and threshold are read in-package from the detector; threshold tolerance +-1 for float accumulation"],
             "parts": [{"engine": "mp", "test": "TestVF_C15", "quick": (4, 1500), "thorough": (16, 40000)}]},
+    "C11": {"level": "exploration", "assumptions": BASE_ASSUME + ["handleConn is driven over net.Pipe in lock step; no system D-Bus (calls to peer daemons fail fast and are ignored by the code); distinct recordings start in distinct milliseconds (the sender paces frames); altitude >= 0 (go-cptv does not store negative altitudes)"],
+            "parts": [{"engine": "e2e", "test": "TestVF_C11", "quick": (4, 150), "thorough": (16, 3000), "shrinktime": "10s"}]},
     "C12": {"level": "exploration", "assumptions": MP_ASSUME + ["sink faults are injected by call ordinal on mock sinks; the real file recorder's own failure modes are exercised by the e2e checks"],
             "parts": [{"engine": "mp", "test": "TestVF_C12", "quick": (4, 1000), "thorough": (16, 30000)}]},
     "C17": {"level": "exploration", "assumptions": MP_ASSUME,
